@@ -302,6 +302,25 @@ def run_squash(case):
                 lg = math.log(1 / t - 1)
                 er = -(_quantile(vals, q) - ex0) / lg if lg != 0 else float('inf')
     degenerate = (er == 0 or not math.isfinite(er) or er < 0)
+    # the quantile equals the midpoint up to the rounding of mean/quantile (e.g. all-equal data): mathematically the
+    # derived slope is zero, numerically it is rounding noise of either sign
+    noise = (r is None and m == 'logistic' and cq is not False and
+             abs(_quantile(vals, q) - ex0) <= 1e-9 * max(1.0, abs(ex0)))
+    if noise and er != 0:
+        res.cls('derived-scale-degenerate', 'derived-scale-noise')
+        with np.errstate(all='ignore'):
+            got, exc = libcall(similarity.squash, X, return_params=True, method=m, keep_sign=case['keep_sign'],
+                               cover_quantile=_cq_lib(cq), **{k: _param(case[k], is_int) for k in ('x0', 'base')
+                                                              if case[k] is not None})
+        if exc:
+            res.fail('squash:noise-derived-scale', 'derived slope is rounding noise (quantile = midpoint) and squash raised '
+                     + exc)
+        else:
+            out = [float(v) for v in np.asarray(got[0], dtype=float).ravel()]
+            if any(math.isnan(v) or math.isinf(v) or v < -1e-12 or v > 1 + 1e-12 for v in out):
+                res.fail('squash:noise-derived-scale', 'derived slope r=%r is rounding noise (quantile = midpoint = %r) and '
+                         'the output %r leaves [0,1]' % (got[1], ex0, out[:3]))
+        return res
     if degenerate:
         res.cls('derived-scale-degenerate')
         if er < 0 or not math.isfinite(er):
@@ -382,6 +401,8 @@ REGIONS = {
     # data-derived scale is zero / undefined (all-zero data, zero quantile): division by zero -> nan
     'c19_degenerate_scale_d2s': lambda case, bucket: bucket == 'd2s:degenerate-derived-scale',
     'c19_degenerate_scale_squash': lambda case, bucket: bucket == 'squash:degenerate-derived-scale',
+    # same root cause, numerically: the quantile equals the midpoint up to rounding, the slope is noise of either sign
+    'c19_noise_scale_squash': lambda case, bucket: bucket == 'squash:noise-derived-scale',
     # reciprocal + cover_quantile derives `a` but return_params reports only r
     'c19_reciprocal_roundtrip': lambda case, bucket: bucket == 'd2s:reciprocal:roundtrip:derived-a',
 }
